@@ -374,11 +374,21 @@ def gen_case(streams, tier):
             ops.insert(i + 1, {"op": "open", "path": ops[i]["path"], "mode": w.choice(["r", "a", "copy"])})
     fault = None
     if f.random() < 0.15:
-        # the fault is armed at the j-th operation that actually performs low-level file I/O
-        fault = {"io_index": f.choice([0, 0, 1, 1, 2, 3, 4]), "call": f.choice([1, 1, 2, 2, 3, 4, 5, 6, 8, 10, 12, 16, 20, 25]),
-                 "errno": f.choice([errno.ENOSPC, errno.EIO]),
-                 "kinds": f.choice([["write"], ["write", "flush", "truncate"], ["read"],
+        # the fault lands on one of the low-level calls (of the listed kinds) this very history performs:
+        # `frac` picks it among them; run_case resolves it to ["at" = operation index, call within it] by a
+        # fault-free dry run of the same history and records that in the case (replay needs no dry run)
+        fault = {"frac": round(f.random(), 6), "errno": f.choice([errno.ENOSPC, errno.EIO]),
+                 "kinds": f.choice([["write"], ["write", "flush", "truncate"], ["read"], ["truncate"], ["flush"],
                                     ["write", "read", "flush", "truncate"], ["write", "read", "flush", "truncate"]])}
+    if fault and not any(o["op"] == "write" for o in ops):
+        # a fault without file traffic tests nothing: give the history one write and a re-open (fault stream
+        # only, so the workload stream is unperturbed)
+        i = next((j for j, o in enumerate(ops) if o["op"] == "new"), None)
+        if i is not None:
+            path = f.choice(PATHS)
+            ops.insert(i + 1, {"op": "write", "h": 0, "path": path, "mode": "w", "subset": False, "pick": 0,
+                               "overwrite": True})
+            ops.append({"op": "open", "path": path, "mode": f.choice(["r", "a", "copy"])})
     return {"ops": ops, "fault": fault}
 
 
@@ -487,8 +497,28 @@ def run_case(case):
     return out
 
 
-def _run_case(case):
+def _run_case(case, _record=False):
     import gc
+
+    fault = case.get("fault")
+    if fault and "at" not in fault:
+        dry = _run_case(dict(case, fault=None), _record=True)
+        kinds = dry.pop("_io_kinds")
+        if dry["violations"]:
+            return dry
+        matching = [(oi, ci + 1) for oi, ks in kinds for ci, kd in enumerate(ks) if kd in fault["kinds"]]
+        if not matching:
+            dry["counters"]["fault_plans_without_matching_io"] = 1
+            dry["case"] = dict(case, fault=None)
+            return dry
+        # first the operation (uniform over operations with matching traffic, so that short ones -- set/del on
+        # a file-bound handle, close -- are hit as often as long writes), then the call within it
+        ops_with = sorted({oi for oi, _ in matching})
+        x = fault["frac"] * len(ops_with)
+        oi_pick = ops_with[min(len(ops_with) - 1, int(x))]
+        calls = [cc for oi, cc in matching if oi == oi_pick]
+        at = (oi_pick, calls[min(len(calls) - 1, int((x - int(x)) * len(calls)))])
+        case = dict(case, fault=dict(fault, at=list(at)))
 
     from simkit.core import Trace
 
@@ -582,15 +612,18 @@ def _run_case(case):
 
     fault = case.get("fault")
     fired_before = 0
-    io_ops_seen = [0]
-    fault_used = [False]
+    io_kinds = []
+    if _record:
+        fs.kind_log = []
     try:
         for oi, op in enumerate(case["ops"]):
             counters["ops"] += 1
             k = op["op"]
             touched = []
-            faulted = fault is not None and not fault_used[0] and io_ops_seen[0] == fault["io_index"]
-            fs.begin_op((fault["call"], fault["errno"], tuple(fault["kinds"])) if faulted else None)
+            if _record:
+                fs.kind_log.clear()  # the oracle's own read-back after the previous operation is not a fault site
+            faulted = fault is not None and oi == fault["at"][0]
+            fs.begin_op((fault["at"][1], fault["errno"], tuple(fault["kinds"])) if faulted else None)
             trace.log("op", oi, k)
             raised = None
             target_paths = []
@@ -768,10 +801,9 @@ def _run_case(case):
             gc.collect(1)
             fired = len(fs.faults_fired) > fired_before
             fired_before = len(fs.faults_fired)
-            if fs.op_calls:
-                io_ops_seen[0] += 1
-                if faulted:
-                    fault_used[0] = True
+            if _record:
+                io_kinds.append((oi, list(fs.kind_log)))
+                fs.kind_log.clear()
             fs.begin_op(None)
             if fired:
                 counters["fault:" + fs.faults_fired[-1][0] + "_error"] = 1
@@ -807,7 +839,11 @@ def _run_case(case):
     for kk, vv in fs.calls.items():
         counters["lowlevel_" + kk] = vv
     nontrivial = bool(counters["reopen_after_write"] or counters["append_into_existing"] or fs.faults_fired)
+    if fault is not None and not fs.faults_fired and not violations:
+        counters["fault_armed_but_not_reached"] = 1
+    extra = {"_io_kinds": io_kinds} if _record else {}
     return {
+        **extra,
         "violations": violations,
         "digest": trace.digest(),
         "nontrivial": nontrivial,
@@ -844,7 +880,12 @@ def shrink_candidates(case):
     for i in range(len(ops) - 1, -1, -1):
         if ops[i]["op"] in ("new", "open"):
             continue
-        yield dict(case, ops=ops[:i] + ops[i + 1:])
+        fl = case.get("fault")
+        if fl and "at" in fl:
+            if i == fl["at"][0]:
+                continue
+            fl = dict(fl, at=[fl["at"][0] - (1 if i < fl["at"][0] else 0), fl["at"][1]])
+        yield dict(case, ops=ops[:i] + ops[i + 1:], fault=fl)
     if case["fault"]:
         yield dict(case, fault=None)
     for i, o in enumerate(ops):
